@@ -202,3 +202,274 @@ Section Proofs.
     exists (c_url c0), p. auto.
   Qed.
 End Proofs.
+
+(** ================= one call alone; sequential histories; provenance; refutations ================= *)
+Lemma set_nth_app_last {A} (l : list A) x y : set_nth (l ++ [x]) (List.length l) y = (l ++ [y])%list.
+Proof. induction l as [|a l IH]; cbn; [reflexivity | rewrite IH; reflexivity]. Qed.
+Lemma nth_error_app_last {A} (l : list A) x : nth_error (l ++ [x]) (List.length l) = Some x.
+Proof. induction l as [|a l IH]; cbn; auto. Qed.
+
+Section Proofs2.
+  Variable enc : profile -> bytes.
+  Variable dec : bytes -> option profile.
+  Hypothesis dec_enc : forall p, dec (enc p) = Some p.
+
+  (** a call running alone: only its own entry of the thread table moves *)
+  Definition lstate := (fs * tstate * list (N * profile) * list (nat * option N))%type.
+  Definition lstep (pr : proto) (i : nat) (c : cfg) (b : behaviour) (s : lstate) : lstate :=
+    let '(f, t, sent, asked) := s in
+    let '(f', t', _, more, ask) := tstep enc dec pr i c b f t in (f', t', (sent ++ more)%list, (asked ++ ask)%list).
+  Fixpoint literate (pr : proto) (i : nat) (c : cfg) (b : behaviour) (n : nat) (s : lstate) : lstate :=
+    match n with O => s | S n' => literate pr i c b n' (lstep pr i c b s) end.
+  Definition embed (ths : list (cfg * tstate)) (c : cfg) (s : lstate) : state :=
+    let '(f, t, sent, asked) := s in St f (ths ++ [(c, t)]) sent asked.
+
+  Lemma solo_last pr ths c b : forall n s,
+    solo enc dec pr n (embed ths c s) (List.length ths) b = embed ths c (literate pr (List.length ths) c b n s).
+  Proof.
+    induction n as [|n IH]; intros [[[f t] sent] asked]; [reflexivity|].
+    cbn [solo literate]. rewrite <- IH. f_equal.
+    cbn [embed exec fst s_threads]. rewrite nth_error_app_last. cbn [lstep s_fs s_sent s_asked].
+    destruct (tstep enc dec pr (List.length ths) c b f t) as [[[[f' t'] nm] more] ask]. cbn.
+    rewrite set_nth_app_last. reflexivity.
+  Qed.
+  Lemma call_last pr st c b :
+    call enc dec pr st c b = embed (s_threads st) c (literate pr (List.length (s_threads st)) c b solo_steps (s_fs st, TStart, s_sent st, s_asked st)).
+  Proof. unfold call. rewrite <- solo_last. reflexivity. Qed.
+
+  (** request_profile as a function of what it holds and what the server answers (repaired protocol) *)
+  Definition outcome (held : option profile) (b : behaviour) : option profile * result profile :=
+    match decide held b with
+    | TAcc p => (Some p, OK p)
+    | TDone r => (held, r)
+    | _ => (held, Err Crash)
+    end.
+  Definition sent_by (c : cfg) (b : behaviour) : list (N * profile) := match b with BProfile p => [(c_url c, p)] | _ => [] end.
+
+  Lemma call_spec st c b held :
+    fs_get (s_fs st) (FCache (key_of c)) = option_map enc held ->
+    let i := List.length (s_threads st) in
+    let st' := call enc dec PNew st c b in
+    result_of st' i = Some (snd (outcome held b))
+    /\ fs_get (s_fs st') (FCache (key_of c)) = option_map enc (fst (outcome held b))
+    /\ (forall m, m <> FCache (key_of c) -> m <> FTmp i -> fs_get (s_fs st') m = fs_get (s_fs st) m)
+    /\ (is_ok (snd (outcome held b)) = false -> s_fs st' = s_fs st)
+    /\ s_sent st' = (s_sent st ++ sent_by c b)%list
+    /\ s_asked st' = (s_asked st ++ [(i, option_map p_date held)])%list
+    /\ (forall j, j <> i -> nth_error (s_threads st') j = nth_error (s_threads st) j).
+  Proof.
+    intros Hg i st'. subst st'. rewrite call_last. fold i. unfold solo_steps.
+    assert (Hthreads : forall f t se a j, j <> i -> nth_error (s_threads (St f (s_threads st ++ [(c, t)]) se a)) j = nth_error (s_threads st) j).
+    { intros f t se a j Hj. cbn. destruct (Nat.lt_ge_cases j i) as [Hl|Hge].
+      - rewrite nth_error_app1; auto.
+      - rewrite (proj2 (nth_error_None _ _) Hge). apply nth_error_None. rewrite app_length; cbn. unfold i in *. lia. }
+    assert (Hres : forall s, result_of (embed (s_threads st) c s) i = match snd (fst (fst s)) with TDone r => Some r | _ => None end).
+    { intros [[[f t] se] a]. unfold result_of; cbn. unfold i. rewrite nth_error_app_last. reflexivity. }
+    unfold outcome.
+    destruct held as [h|]; cbn [option_map] in Hg.
+    - (* a profile is cached *)
+      cbn [literate lstep tstep]. rewrite Hg. cbn [literate lstep tstep]. rewrite Hg, dec_enc. cbn [literate lstep tstep].
+      destruct b as [p| | | |]; cbn [decide].
+      + destruct (p_date h <=? p_date p) eqn:Hd.
+        * cbn [literate lstep tstep]. rewrite !fs_get_set_eq. cbn [literate lstep tstep].
+          rewrite Hres. cbn [fst snd embed s_fs s_sent s_asked]. rewrite !app_nil_r. rewrite <- ?app_assoc; cbn [app].
+          split; [reflexivity|]. split; [apply fs_get_set_eq|].
+          split; [intros m Hm1 Hm2; rewrite fs_get_set_neq by congruence; rewrite fs_get_del_neq by congruence;
+                  rewrite !fs_get_set_neq by congruence; reflexivity|].
+          split; [discriminate|]. split; [reflexivity|]. split; [reflexivity|]. apply Hthreads.
+        * cbn [literate lstep tstep]. rewrite Hres. cbn [fst snd embed s_fs s_sent s_asked]. rewrite !app_nil_r. rewrite <- ?app_assoc; cbn [app].
+          repeat split; auto; try apply Hthreads.
+      + cbn [literate lstep tstep]. rewrite Hres. cbn [fst snd embed s_fs s_sent s_asked]. rewrite !app_nil_r.
+        repeat split; auto; try apply Hthreads.
+      + cbn [literate lstep tstep]. rewrite Hres. cbn [fst snd embed s_fs s_sent s_asked]. rewrite !app_nil_r.
+        repeat split; auto; try apply Hthreads.
+      + cbn [literate lstep tstep]. rewrite Hres. cbn [fst snd embed s_fs s_sent s_asked]. rewrite !app_nil_r.
+        repeat split; auto; try apply Hthreads.
+      + cbn [literate lstep tstep]. rewrite Hres. cbn [fst snd embed s_fs s_sent s_asked]. rewrite !app_nil_r.
+        repeat split; auto; try apply Hthreads.
+    - (* nothing cached *)
+      cbn [literate lstep tstep]. rewrite Hg. cbn [literate lstep tstep].
+      destruct b as [p| | | |]; cbn [decide].
+      + cbn [literate lstep tstep]. rewrite !fs_get_set_eq. cbn [literate lstep tstep].
+        rewrite Hres. cbn [fst snd embed s_fs s_sent s_asked]. rewrite !app_nil_r. rewrite <- ?app_assoc; cbn [app].
+        split; [reflexivity|]. split; [apply fs_get_set_eq|].
+        split; [intros m Hm1 Hm2; rewrite fs_get_set_neq by congruence; rewrite fs_get_del_neq by congruence;
+                rewrite !fs_get_set_neq by congruence; reflexivity|].
+        split; [discriminate|]. split; [reflexivity|]. split; [reflexivity|]. apply Hthreads.
+      + cbn [literate lstep tstep]. rewrite Hres. cbn [fst snd embed s_fs s_sent s_asked]. rewrite !app_nil_r.
+        repeat split; auto; try apply Hthreads.
+      + cbn [literate lstep tstep]. rewrite Hres. cbn [fst snd embed s_fs s_sent s_asked]. rewrite !app_nil_r.
+        repeat split; auto; try apply Hthreads.
+      + cbn [literate lstep tstep]. rewrite Hres. cbn [fst snd embed s_fs s_sent s_asked]. rewrite !app_nil_r.
+        repeat split; auto; try apply Hthreads.
+      + cbn [literate lstep tstep]. rewrite Hres. cbn [fst snd embed s_fs s_sent s_asked]. rewrite !app_nil_r.
+        repeat split; auto; try apply Hthreads.
+  Qed.
+
+  (** ================= later_request_never_poisoned ================= *)
+  (** a server that answers a request sensibly: "up to date" only to a client that holds something, or a profile not older than it *)
+  Definition well_behaved (held : option profile) (b : behaviour) : Prop :=
+    match b, held with
+    | BUpToDate, Some _ => True
+    | BProfile q, Some h => p_date h <=? p_date q = true
+    | BProfile q, None => True
+    | _, _ => False
+    end.
+
+  Lemma later_request_never_poisoned_l es c b :
+    let st := run enc dec PNew init es in
+    exists held, fs_get (s_fs st) (FCache (key_of c)) = option_map enc held
+      /\ (well_behaved held b ->
+            exists p, result_of (call enc dec PNew st c b) (List.length (s_threads st)) = Some (OK p)
+                      /\ fs_get (s_fs (call enc dec PNew st c b)) (FCache (key_of c)) = Some (enc p)).
+  Proof.
+    intros st. destruct (reachable_inv enc dec dec_enc es) as (Hc & _). fold st in Hc.
+    destruct (fs_get (s_fs st) (FCache (key_of c))) as [content|] eqn:G.
+    - destruct (Hc _ _ G) as (h & -> & _). exists (Some h). split; [reflexivity|]. intros Hw.
+      destruct (call_spec st c b (Some h) G) as (R & F & _). unfold outcome in *.
+      destruct b as [q| | | |]; cbn in Hw; try contradiction; cbn [decide] in *.
+      + rewrite Hw in *. exists q. auto.
+      + exists h. auto.
+    - exists None. split; [reflexivity|]. intros Hw.
+      destruct (call_spec st c b None G) as (R & F & _). unfold outcome in *.
+      destruct b as [q| | | |]; cbn in Hw; try contradiction; cbn [decide] in *. exists q. auto.
+  Qed.
+
+  (** ================= sequential_history ================= *)
+  Definition seqrun (st : state) (c : cfg) (bs : list behaviour) : state := fold_left (fun st b => call enc dec PNew st c b) bs st.
+  Definition profiles_of (bs : list behaviour) : list profile := flat_map (fun b => match b with BProfile p => [p] | _ => [] end) bs.
+  (** the newest of the profiles sent, the later one among equal dates *)
+  Definition newer (acc : option profile) (p : profile) : option profile :=
+    match acc with Some h => if p_date h <=? p_date p then Some p else Some h | None => Some p end.
+  Definition newest (l : list profile) : option profile := fold_left newer l None.
+  Definition date_le (a b : option profile) : Prop :=
+    match a, b with None, _ => True | Some h, Some h' => (p_date h <= p_date h')%N | Some _, None => False end.
+
+  Lemma outcome_newer held b : fst (outcome held b) = fold_left newer (profiles_of [b]) held.
+  Proof.
+    unfold outcome. destruct b as [p| | | |]; cbn; try (destruct held; reflexivity).
+    destruct held as [h|]; cbn; [destruct (p_date h <=? p_date p); reflexivity | reflexivity].
+  Qed.
+  Lemma newest_snoc pre b : newest (profiles_of (pre ++ [b])) = fst (outcome (newest (profiles_of pre)) b).
+  Proof. unfold newest, profiles_of. rewrite flat_map_app, fold_left_app. rewrite outcome_newer. reflexivity. Qed.
+
+  Lemma seqrun_cache c : forall bs st held,
+    fs_get (s_fs st) (FCache (key_of c)) = option_map enc held ->
+    fs_get (s_fs (seqrun st c bs)) (FCache (key_of c)) = option_map enc (fold_left newer (profiles_of bs) held).
+  Proof.
+    induction bs as [|b r IH]; intros st held Hg; [exact Hg|].
+    destruct (call_spec st c b held Hg) as (_ & F & _).
+    specialize (IH _ _ F). unfold seqrun in *. cbn [fold_left]. rewrite IH. f_equal.
+    replace (profiles_of (b :: r)) with (profiles_of [b] ++ profiles_of r)%list by (unfold profiles_of; cbn [flat_map]; rewrite app_nil_r; reflexivity).
+    rewrite fold_left_app, <- outcome_newer. reflexivity.
+  Qed.
+
+  Lemma sequential_history_l c pre b :
+    let st0 := seqrun init c pre in
+    let st1 := call enc dec PNew st0 c b in
+    let i := List.length (s_threads st0) in
+    let held := newest (profiles_of pre) in
+    fs_get (s_fs st0) (FCache (key_of c)) = option_map enc held
+    /\ s_asked st1 = (s_asked st0 ++ [(i, option_map p_date held)])%list
+    /\ (exists r, result_of st1 i = Some r)
+    /\ (forall p, result_of st1 i = Some (OK p) -> Some p = newest (profiles_of (pre ++ [b])))
+    /\ (forall e, result_of st1 i = Some (Err e) -> s_fs st1 = s_fs st0)
+    /\ fs_get (s_fs st1) (FCache (key_of c)) = option_map enc (newest (profiles_of (pre ++ [b])))
+    /\ date_le held (newest (profiles_of (pre ++ [b]))).
+  Proof.
+    intros st0 st1 i held.
+    assert (Hg : fs_get (s_fs st0) (FCache (key_of c)) = option_map enc held) by (apply (seqrun_cache c pre init None); reflexivity).
+    destruct (call_spec st0 c b held Hg) as (R & F & _ & Hfail & _ & A & _). fold st1 i in R, F, Hfail, A.
+    rewrite newest_snoc. fold held.
+    split; [exact Hg|]. split; [exact A|]. split; [eauto|].
+    split; [|split; [|split; [exact F|]]].
+    - intros p Hp. rewrite R in Hp. injection Hp as Hp. unfold outcome in *.
+      destruct b as [q| | | |]; cbn [decide] in *.
+      + destruct held as [h|]; [destruct (p_date h <=? p_date q)|]; cbn [fst snd] in *; congruence.
+      + destruct held as [h|]; cbn [fst snd] in *; congruence.
+      + discriminate.
+      + discriminate.
+      + discriminate.
+    - intros e He. rewrite R in He. injection He as He. apply Hfail. rewrite He. reflexivity.
+    - unfold outcome, date_le. destruct b as [q| | | |]; cbn [decide]; destruct held as [h|]; cbn [fst snd]; auto; try lia.
+      destruct (p_date h <=? p_date q) eqn:E; cbn [fst snd]; [apply N.leb_le; exact E | lia].
+  Qed.
+
+  (** ================= cache_not_shared_across_servers ================= *)
+  Definition keys_not_shared (cfgs : list cfg) : Prop :=
+    forall c c', In c cfgs -> In c' cfgs -> key_of c = key_of c' -> c_url c = c_url c'.
+
+  Lemma cache_not_shared_across_servers_l es :
+    keys_not_shared (spawned es) ->
+    let st := run enc dec PNew init es in
+    forall i c t, nth_error (s_threads st) i = Some (c, t) ->
+    forall p, (t = TNet (Some p) \/ t = TDone (OK p)) -> In (c_url c, p) (s_sent st).
+  Proof.
+    intros HK st i c t Hn p Ht. destruct (reachable_inv enc dec dec_enc es) as (_ & Hth). fold st in Hth.
+    destruct (Hth _ _ _ Hn) as (Hin & H).
+    assert (S : sent_to_key (spawned es) (s_sent st) (key_of c) p) by (destruct Ht as [-> | ->]; exact H).
+    destruct S as (c0 & Hin0 & Hk & Hs). rewrite <- (HK _ _ Hin0 Hin Hk). exact Hs.
+  Qed.
+End Proofs2.
+
+(** ================= the concrete codec satisfies the hypothesis ================= *)
+Lemma forallb_repeat (x : N) n : forallb (N.eqb x) (repeat x n) = true.
+Proof. induction n; cbn; [reflexivity | rewrite N.eqb_refl; exact IHn]. Qed.
+Lemma dec_enc_c p : dec_c (enc_c p) = Some p.
+Proof.
+  destruct p as [i d l]. unfold enc_c, dec_c; cbn [p_id p_date p_len].
+  rewrite repeat_length, N.eqb_refl, forallb_repeat. reflexivity.
+Qed.
+
+(** ================= refutations on the faithful model ================= *)
+Definition c17 : cfg := Cfg 0 (Some 1) (Some 1).
+Definition p_long : profile := Profile 1 10 4.
+Definition p_short : profile := Profile 2 11 1.
+Definition p_next : profile := Profile 3 12 2.
+(** finding 17 (a): the call dies right after open(persistpath, "wb") *)
+Definition crash_trace : list event :=
+  [ESpawn c17; EStep 0 (BProfile p_long); EStep 0 (BProfile p_long); EStep 0 (BProfile p_long); EKill 0].
+(** finding 17 (b): two calls of one client, the long document first, the short one over it *)
+Definition splice_trace : list event :=
+  [ESpawn c17; ESpawn c17;
+   EStep 0 (BProfile p_long); EStep 0 (BProfile p_long); EStep 1 (BProfile p_short); EStep 1 (BProfile p_short);
+   EStep 0 (BProfile p_long); EStep 1 (BProfile p_short);
+   EStep 0 (BProfile p_long); EStep 0 (BProfile p_long); EStep 1 (BProfile p_short); EStep 1 (BProfile p_short)].
+
+Lemma cache_whole_refuted_l :
+  (let st := run enc_c dec_c POld init crash_trace in
+   fs_get (s_fs st) (FCache (key_of c17)) = Some []
+   /\ (forall p, enc_c p <> [])
+   /\ result_of (call enc_c dec_c POld st c17 (BProfile p_next)) (List.length (s_threads st)) = Some (Err Reject)
+   /\ result_of (call enc_c dec_c PNew st c17 (BProfile p_next)) (List.length (s_threads st)) = Some (Err Reject))
+  /\ (let st := run enc_c dec_c POld init splice_trace in
+      fs_get (s_fs st) (FCache (key_of c17)) = Some (enc_c p_short ++ skipn (List.length (enc_c p_short)) (enc_c p_long))%list
+      /\ result_of st 0 = Some (OK p_long) /\ result_of st 1 = Some (OK p_short)
+      /\ (forall p, In p (map snd (s_sent st)) -> fs_get (s_fs st) (FCache (key_of c17)) <> Some (enc_c p))
+      /\ result_of (call enc_c dec_c POld st c17 BUpToDate) (List.length (s_threads st)) = Some (Err Reject)).
+Proof.
+  split.
+  - split; [vm_compute; reflexivity|]. split; [intros [i d l]; discriminate|]. split; vm_compute; reflexivity.
+  - split; [vm_compute; reflexivity|]. split; [vm_compute; reflexivity|]. split; [vm_compute; reflexivity|].
+    split; [|vm_compute; reflexivity].
+    intros p Hp. vm_compute in Hp. destruct Hp as [<-|[<-|[]]]; vm_compute; discriminate.
+Qed.
+
+(** finding 18: the cache file of a client without ORG/FID is the cache file of every such client, whatever its URL *)
+Definition cA18 : cfg := Cfg 0 None None.
+Definition cB18 : cfg := Cfg 1 None None.
+Definition shared_trace : list event :=
+  [ESpawn cA18] ++ repeat (EStep 0 (BProfile p_long)) 8 ++ [ESpawn cB18] ++ repeat (EStep 1 BUpToDate) 3.
+Lemma cache_shared_across_servers_refuted_l :
+  let st := run enc_c dec_c PNew init shared_trace in
+  key_of cA18 = key_of cB18 /\ c_url cA18 <> c_url cB18
+  /\ nth_error (s_threads st) 1 = Some (cB18, TDone (OK p_long))
+  /\ s_asked st = [(0%nat, None); (1%nat, Some (p_date p_long))]
+  /\ ~ In (c_url cB18, p_long) (s_sent st)
+  /\ ~ keys_not_shared (spawned shared_trace).
+Proof.
+  split; [reflexivity|]. split; [discriminate|]. split; [vm_compute; reflexivity|]. split; [vm_compute; reflexivity|].
+  split.
+  - vm_compute. intros [H|[]]. discriminate.
+  - intros H. specialize (H cA18 cB18). cbn in H. assert (E : 0 = 1) by (apply H; auto). discriminate.
+Qed.
